@@ -113,7 +113,7 @@ def _tool_env_and_wrapper(job, logbase):
     if job.tool == "memcheck":
         wrapper = ["valgrind", "--tool=memcheck", "--error-exitcode=95", "--leak-check=full",
                    "--errors-for-leak-kinds=definite,indirect", "--show-leak-kinds=definite,indirect",
-                   "--num-callers=25", "--log-file=%s.vg" % logbase, "-q"] + wrapper
+                   "--num-callers=25", "--track-origins=yes", "--log-file=%s.vg" % logbase, "-q"] + wrapper
     if job.tool == "helgrind":
         wrapper = ["valgrind", "--tool=helgrind", "--error-exitcode=95", "--num-callers=25",
                    "--history-level=approx", "--log-file=%s.vg" % logbase, "-q"] + wrapper
